@@ -10,6 +10,12 @@ E2 = 'SMT lemmas over kernels translated from /repo source on every run (z3), na
 
 CLAIMED = {
     # id: (design ref, technique, level text, level note)
+    'C01': ('DESIGN.md 4 C01', E1,
+            'Field round trip real encoder -> real decoder (and an independent reader) of a message holding one record of every kind, with every TTL, class word, flush / QU bit, id and SRV number symbolic, over five name sets; kernel lemmas on the real _write_utf / _decode_labels_at_offset (label of symbolic length 1..300), _write_link_to_name (pointer to any offset 12..8950), character-strings 0..255 octets, NSEC bitmap for every type 0..255.',
+            'Trusted: as C05; packer stand-ins (vkit/wire.py), SymPacket view of the element list (vkit/pkt.py), bit-operation handlers. Label contents / suffix-sharing beyond the name sets are not symbolic; splitting and rollback are C14.'),
+    'C02': ('DESIGN.md 4 C02', E1,
+            'Totality, linear work budget, name length and faithfulness against a strict RFC 1035 reader of the real DNSIncoming on datagrams whose payload octets are all solver variables (12 + P octets, P <= 5 quick / 7 thorough; record templates with symbolic owner octets, RDLENGTH and rdata octets), every tiling of labels / pointers / fields exhausted.',
+            'Trusted: as C01. Datagrams longer than the bound - in particular the 2 KB pointer chain that exhausts the interpreter stack - are not reached; label text is opaque (octets compared).'),
     'C03': ('DESIGN.md 4 C03', E1,
             'Answer sets, per-answer additionals, TTLs and flush marking of QueryHandler.async_response equal a declarative reference responder for every enumerated (registry script, questions, known answers) shape, for all service TTLs 1..2^31-1 and known-answer TTLs 0..2^32-1 (half-TTL boundary solver-decided).',
             'Trusted: as C05 plus the reference responder in vkit/responder.py. Question types and names are enumerated, not symbolic.'),
@@ -41,6 +47,9 @@ CLAIMED = {
     'C13': ('DESIGN.md 4 C13', E1,
             'Known answers attached by generate_service_query and ServiceInfo._generate_request_query are exactly the matching records with more than half their TTL left (ages / TTLs symbolic), stamped with the query instant; _write_ttl writes floor(remaining seconds) for all created / ttl / now; duplicate-question suppression between two askers (own query or question heard as responder) decided for every gap 0..2500 ms and known-answer relation.',
             'Trusted: as C05; caches of <= 4 records. QU-then-QM of browsers is decided in C10, the lookup schedule in C18, TC splitting in C14.'),
+    'C14': ('DESIGN.md 4 C14', E1,
+            'Per datagram built by the real packets(): octets == accounted size <= 8966, <= 1460 unless it holds a single entry, id / flags / TC rule, header counts == entries present, every entry read back (independent reader following compression pointers through symbolic offsets) with its own owner name, type, RDLENGTH and rdata names; over the sequence every entry exactly once in order - for messages of <= 7 entries whose TXT rdata lengths 0..8900 are solver variables.',
+            'Trusted: as C01. Entries that cannot fit 8966 octets alone, and hundreds of entries, are outside.'),
     'C16': ('DESIGN.md 4 C16', E1,
             'Metamorphic equivalence on each symbolic path: a history run with every datagram repeated dgap ms later (0..999) and the same history without repeats (identical random draws) produce identical multicast transmissions, browser callbacks and record-listener calls, and identical unicast replies except for a repeated QU reply; offsets, dgap, TTLs, sighting ages symbolic.',
             'Trusted: as C05; datagrams are opaque byte tokens mapped to prebuilt messages (the listener guard and dispatch are the real code); no loop-back of the host own multicast.'),
